@@ -350,6 +350,7 @@ class AccWalk:
         self.begin_src = {}      # iterator decl id -> container expr node(s)
         self.order = []          # decl ids in declaration order
         self.out = []
+        self.gout = []
         self.collect(fn)
 
     def collect(self, n):
@@ -494,35 +495,122 @@ class AccWalk:
             return "T_TOT"
         return None
 
-    def walk(self, n):
+    # ---- guards (path conditions)
+    def rend(self, n):
+        """stable text of a scalar expression inside a condition"""
+        n = strip(n)
         k = n.get("kind")
+        if k in ("ImplicitCastExpr", "CStyleCastExpr") and kids(n):
+            return self.rend(kids(n)[-1])
+        if k in ("IntegerLiteral", "CharacterLiteral"):
+            return str(n["value"])
+        if k == "FloatingLiteral":
+            return str(q_of_text(lit_text(n, self.src)))
+        if k in ("GNUNullExpr", "CXXNullPtrLiteralExpr"):
+            return "NULL"
+        if k == "DeclRefExpr":
+            rd = n["referencedDecl"]
+            if rd.get("kind") == "EnumConstantDecl":
+                return rd["name"]
+            d = self.decls.get(rd["id"])
+            if d is not None and d.get("kind") == "VarDecl" and is_float_type(qualtype(d)) and not self.single(d):
+                return self.dlocal_name(d)
+            return self.obj_name(n)
+        if k == "BinaryOperator" and n["opcode"] in ("+", "-", "*", "/"):
+            return "(%s%s%s)" % (self.rend(kids(n)[0]), n["opcode"], self.rend(kids(n)[1]))
+        if k == "UnaryOperator" and n.get("opcode") == "-":
+            return "-" + self.rend(kids(n)[0])
+        return self.obj_name(n)
+
+    def gx(self, n):
+        """condition -> gexp text"""
+        n = strip(n)
+        k = n.get("kind")
+        if k in ("ImplicitCastExpr", "CStyleCastExpr") and kids(n):
+            return self.gx(kids(n)[-1])
+        if k == "BinaryOperator":
+            op = n["opcode"]
+            if op == "&&":
+                return "(GAnd %s %s)" % (self.gx(kids(n)[0]), self.gx(kids(n)[1]))
+            if op == "||":
+                return "(GOr %s %s)" % (self.gx(kids(n)[0]), self.gx(kids(n)[1]))
+            if op in ("==", "!="):
+                a, b = self.rend(kids(n)[0]), self.rend(kids(n)[1])
+                t = '(GAtom "%s==%s")' % (a, b)
+                return t if op == "==" else "(GNot %s)" % t
+            if op in ("<", ">", "<=", ">="):
+                a, b = self.rend(kids(n)[0]), self.rend(kids(n)[1])
+                # canonical: strict/non-strict "less" only
+                if op == ">":
+                    return '(GAtom "%s<%s")' % (b, a)
+                if op == ">=":
+                    return '(GAtom "%s<=%s")' % (b, a)
+                return '(GAtom "%s%s%s")' % (a, op, b)
+        if k == "UnaryOperator" and n.get("opcode") == "!":
+            return "(GNot %s)" % self.gx(kids(n)[0])
+        return '(GAtom "%s")' % self.rend(n)
+
+    @staticmethod
+    def exits(st):
+        """does the statement always leave the enclosing block (return / continue / break)?"""
+        k = st.get("kind")
+        if k in ("ReturnStmt", "ContinueStmt", "BreakStmt"):
+            return True
+        if k == "CompoundStmt" and kids(st):
+            return AccWalk.exits(kids(st)[-1])
+        return False
+
+    @staticmethod
+    def gand(g, c):
+        return c if g == "GTrue" else "(GAnd %s %s)" % (g, c)
+
+    def record(self, t, op, e, g):
+        self.out.append((t, op, e))
+        self.gout.append((t, op, e, g))
+
+    def walk(self, n, g="GTrue"):
+        k = n.get("kind")
+        if k == "CompoundStmt":
+            for st in kids(n):
+                self.walk(st, g)
+                if st.get("kind") == "IfStmt" and len(kids(st)) == 2 and self.exits(kids(st)[1]):
+                    g = self.gand(g, "(GNot %s)" % self.gx(kids(st)[0]))
+            return
+        if k == "IfStmt":
+            ks = kids(n)
+            c = self.gx(ks[0])
+            self.walk(ks[0], g)
+            self.walk(ks[1], self.gand(g, c))
+            if len(ks) > 2:
+                self.walk(ks[2], self.gand(g, "(GNot %s)" % c))
+            return
         if k in ("BinaryOperator", "CompoundAssignOperator") and n.get("opcode") in ("=", "+=", "-=", "*=", "/="):
             t = self.target_of(kids(n)[0])
             op = {"+=": "1", "-=": "(-1)", "=": "0", "*=": "2", "/=": "3"}[n["opcode"]]
             if t:
-                self.out.append((t, op, self.ax(kids(n)[1])))
+                self.record(t, op, self.ax(kids(n)[1]), g)
             elif self.fn["name"] in TRACK_LOCALS:
                 l = strip(kids(n)[0])
                 d = self.decls.get(l.get("referencedDecl", {}).get("id")) if l.get("kind") == "DeclRefExpr" else None
                 if d is not None and d.get("kind") == "VarDecl" and is_float_type(qualtype(d)) and not self.single(d):
                     # value given to a multi-assigned floating local: recorded as  local - rhs  (== 0 after the statement)
-                    self.out.append(("T_LOCAL", op, '(ASub (AVar "%s") %s)' % (self.dlocal_name(d), self.ax(kids(n)[1]))))
+                    self.record("T_LOCAL", op, '(ASub (AVar "%s") %s)' % (self.dlocal_name(d), self.ax(kids(n)[1])), g)
         if k == "CXXMemberCallExpr":
             m = strip(kids(n)[0])
             nm = m.get("name") if m.get("kind") == "MemberExpr" else None
             base_this = m.get("kind") == "MemberExpr" and strip(kids(m)[0]).get("kind") == "CXXThisExpr"
             if nm in ("add_elt_list", "get_elts_in_species") and base_this and len(kids(n)) >= 3:
-                self.out.append(("T_ELT", "1", self.ax(kids(n)[2])))
+                self.record("T_ELT", "1", self.ax(kids(n)[2]), g)
             if nm in ("Set_moles", "Set_delta") and len(kids(n)) >= 2:
-                self.out.append(("T_MOLES" if nm == "Set_moles" else "T_DELTA", "0", self.ax(kids(n)[1])))
+                self.record("T_MOLES" if nm == "Set_moles" else "T_DELTA", "0", self.ax(kids(n)[1]), g)
             if nm == "add_solution" and base_this and len(kids(n)) >= 3:
-                self.out.append(("T_CALL", "1", self.ax(kids(n)[2])))
+                self.record("T_CALL", "1", self.ax(kids(n)[2]), g)
         for c in kids(n):
-            self.walk(c)
+            self.walk(c, g)
 
 
 def gen_acc(fns, srcbytes):
-    lines = []
+    lines, glines = [], []
     for f in FUNCS_ACC:
         if f not in fns:
             raise Refuse("Phreeqc::%s not found in step.cpp" % f)
@@ -531,7 +619,11 @@ def gen_acc(fns, srcbytes):
         w.walk(body)
         for t, op, e in sorted(set(w.out)):
             lines.append('  mkAcc "%s" %s %s %s' % (f, t, op, e))
-    return "Definition gen_acc : list acc :=\n  [\n" + ";\n".join(lines) + "\n  ].\n"
+        for t, op, e, g in sorted(set(w.gout)):
+            glines.append('  mkGacc "%s" %s %s %s' % (f, t, e, g))
+    return ("Definition gen_acc : list acc :=\n  [\n" + ";\n".join(lines) + "\n  ].\n\n"
+            "(* the same statements with their path condition (guard) inside the function *)\n"
+            "Definition gen_guard : list gacc :=\n  [\n" + ";\n".join(glines) + "\n  ].\n")
 
 
 HEADER = """(* GENERATED by translator/c02_step.py from src/phreeqcpp/step.cpp -- do not edit. *)
